@@ -572,6 +572,72 @@ Qed.
 
 
 (* ------------------------------------------------------------------ *)
+(** * Registrations on one runtime are independent; a cap on the retries is wrong *)
+Section Runtime.
+  Variables A B U PS : Type.
+  Variable xmit : list A -> list B -> bool -> xres.
+  Variable peer : PS -> list A -> list B -> bool -> PS * option (reply U).
+  Variable rc : Z -> Z -> Z -> Z -> option (Z * Z).
+
+  (* the outcome of the registration at position j is the outcome of that registration alone, whatever
+     was synchronised before (and after) it on the same runtime *)
+  Theorem sync_independent fuel (before after : list (registration A B PS)) (r : registration A B PS) :
+    nth_error (sync_all xmit peer rc fuel (before ++ r :: after)) (length before) = Some (sync_one xmit peer rc fuel r) /\
+    length (sync_all xmit peer rc fuel (before ++ r :: after)) = S (length before + length after).
+  Proof.
+    unfold sync_all. split.
+    - rewrite map_app. cbn [map]. rewrite nth_error_app2 by (rewrite map_length; lia).
+      rewrite map_length, Nat.sub_diag. reflexivity.
+    - rewrite map_length, app_length. cbn [length]. lia.
+  Qed.
+
+  (* the capped variant is the model as long as the cap is not reached *)
+  Lemma capped_below_cap cap : forall fuel ps cs pp cp st retries,
+    (retries + fuel <= cap)%nat ->
+    sync_loop_capped xmit peer rc cap fuel ps cs pp cp st retries = sync_loop xmit peer rc fuel ps cs pp cp st.
+  Proof.
+    induction fuel as [|fuel IH]; intros ps cs pp cp st retries Hc; [reflexivity|].
+    cbn [sync_loop_capped sync_loop]. destruct (negb (slice_ok ps pp && slice_ok cs cp)); [reflexivity|].
+    destruct (xmit (take pp ps) (take cp cs) ((pp <? len ps) || (cp <? len cs))) as [|mx ml|]; [| |reflexivity].
+    - destruct (peer st (take pp ps) (take cp cs) ((pp <? len ps) || (cp <? len cs))) as [st' [rp|]]; [|reflexivity].
+      destruct (negb ((pp <? len ps) || (cp <? len cs))); [reflexivity|].
+      destruct (negb (is_nil (r_update rp)) || negb (Bool.eqb (r_more rp) ((pp <? len ps) || (cp <? len cs)))); [reflexivity|].
+      rewrite IH by lia. reflexivity.
+    - replace (cap <? S retries)%nat with false by (symmetry; apply Nat.ltb_ge; lia).
+      destruct (rc pp cp mx ml) as [[pp' cp']|]; [|reflexivity]. apply IH. lia.
+  Qed.
+End Runtime.
+
+(* one large object followed by 20000 objects of one byte; eight objects fit into a message (so
+   delivery is owed, I4), nine do not when the large one is among them *)
+Definition cap_witness : list Z := 400000 :: repeat 1 (Z.to_nat 20000).
+Definition cap_limit : Z := 400062.
+Definition cap_h : list Z -> list Z -> option (list Z) := fun _ _ => Some [].
+
+Lemma cap_witness_fits : min_chunks_fit 49 2 cap_limit (map id (@nil Z)) (map id cap_witness) = true.
+Proof. vm_compute. reflexivity. Qed.
+
+Lemma cap_witness_delivered :
+  outcome_ok (synchronize (xmit_size id id 49 2 cap_limit) (stub_sync (Some cap_h)) recalc (sync_fuel (@nil Z) cap_witness) [] cap_witness stub_init) = true.
+Proof. vm_compute. reflexivity. Qed.
+
+Lemma cap_witness_refused cap : In cap [8; 16; 32; 64]%nat ->
+  outcome_ok (synchronize_capped (xmit_size id id 49 2 cap_limit) (stub_sync (Some cap_h)) recalc cap
+                                 (sync_fuel (@nil Z) cap_witness) [] cap_witness stub_init) = false.
+Proof. intros [<-|[<-|[<-|[<-|[]]]]]; vm_compute; reflexivity. Qed.
+
+Theorem retry_cap_refuted : forall cap, In cap [8; 16; 32; 64]%nat ->
+  exists (ws : list Z) (L : Z),
+    0 < L /\ min_chunks_fit 49 2 L (map id (@nil Z)) (map id ws) = true /\
+    outcome_ok (synchronize (xmit_size id id 49 2 L) (stub_sync (Some cap_h)) recalc (sync_fuel (@nil Z) ws) [] ws stub_init) = true /\
+    outcome_ok (synchronize_capped (xmit_size id id 49 2 L) (stub_sync (Some cap_h)) recalc cap (sync_fuel (@nil Z) ws) [] ws stub_init) = false.
+Proof.
+  intros cap Hin. exists cap_witness, cap_limit.
+  split; [reflexivity|]. split; [exact cap_witness_fits|]. split; [exact cap_witness_delivered|].
+  exact (cap_witness_refused cap Hin).
+Qed.
+
+(* ------------------------------------------------------------------ *)
 (** * One request per synchronize call
     For ANY transport, ANY plugin end, ANY recalculation function and ANY fuel (no hypothesis at all):
     nothing is sent after a message not flagged More.  The loop tries again only when the SENDING side
@@ -709,6 +775,20 @@ Theorem safety {A B U PS} (xmit : list A -> list B -> bool -> xres)
 Proof.
   intros Hx Lp Lc Hf.
   apply synchronize_good with (K := count_bound); try assumption; try (unfold count_bound; lia).
+  - intros. eapply recalc_dec; eassumption.
+  - intros. eapply recalc_zero; eassumption.
+Qed.
+
+(* the loop started from ANY counts that are legal slices and are 0 only for an exhausted list is as good
+   as started from the whole state; counts remembered from another synchronisation need not be such *)
+Theorem start_counts_safe {A B U PS} (xmit : list A -> list B -> bool -> xres)
+    (peer : PS -> list A -> list B -> bool -> PS * option (reply U)) ps cs pp cp st fuel :
+  honest xmit -> Inv ps cs pp cp -> len ps < 2 ^ 53 -> len cs < 2 ^ 53 ->
+  (Z.to_nat (measure ps cs pp cp) < fuel)%nat ->
+  sync_good peer ps cs st (sync_loop xmit peer recalc fuel ps cs pp cp st).
+Proof.
+  intros Hx HI Lp Lc Hf.
+  apply loop_good with (K := count_bound); try assumption; try (unfold count_bound; lia).
   - intros. eapply recalc_dec; eassumption.
   - intros. eapply recalc_zero; eassumption.
 Qed.
